@@ -190,6 +190,10 @@ structure SimpleUnit (α : Type) where
   infVols : List Nat
 deriving Inhabited
 
+/-- surface / volume accessors (out-of-range reads give a default, never reached on valid data) -/
+def SimpleUnit.surf (u : SimpleUnit α) (sid : Nat) : Surface α := u.surfaces.getD sid default
+def SimpleUnit.vol (u : SimpleUnit α) (id : Nat) : Volume α := u.volumes.getD id default
+
 structure RectArray (α : Type) where
   dims : Array Nat            -- 3
   grid : Array (Array α)      -- 3 axes
@@ -281,7 +285,7 @@ def calcSensesFrom (u : SimpleUnit α) (pos : Vec3 α) (onFace : Option (Nat × 
       let (ss, f') := calcSensesFrom u pos onFace (i + 1) rest face
       (s :: ss, f')
     | none =>
-      let sg := (u.surfaces.getD sid default).calcSense pos
+      let sg := (u.surf sid).calcSense pos
       let cur := sg != SignedSense.inside
       let face' := if face.isNone && sg == SignedSense.on then some (i, cur) else face
       let (ss, f') := calcSensesFrom u pos onFace (i + 1) rest face'
@@ -321,7 +325,7 @@ def bihLoop (u : SimpleUnit α) (p : Vec3 α) : Nat → Nat → Option Nat → L
     let here : List Nat :=
       if cur < u.inner.size then []
       else ((u.leaves.getD (cur - u.inner.size) default).vols).filter fun v =>
-        inBBox (u.volumes.getD v default) p
+        inBBox (u.vol v) p
     match bihNext u cur prev p with
     | none => here
     | some nxt => here ++ bihLoop u p fuel nxt (some cur)
@@ -334,7 +338,7 @@ def bihCandidates (u : SimpleUnit α) (p : Vec3 α) : List Nat :=
 def initScan (u : SimpleUnit α) (pos : Vec3 α) : List Nat → Bool → Option Nat × Bool
   | [], on => (none, on)
   | id :: rest, _ =>
-    let vol := u.volumes.getD id default
+    let vol := u.vol id
     let (senses, face) := calcSenses u vol pos none
     if evalLogic vol.logic senses then (some id, face.isSome)
     else initScan u pos rest face.isSome
@@ -350,7 +354,7 @@ def SimpleUnit.initialize (u : SimpleUnit α) (pos : Vec3 α) : Option Nat :=
 def crossInside (u : SimpleUnit α) (st : LocalState α) (id : Nat) : Bool :=
   if some id == st.volume then false
   else
-    let vol := u.volumes.getD id default
+    let vol := u.vol id
     let (senses, _) := calcSenses u vol st.pos (toOnFace vol st.surface)
     evalLogic vol.logic senses
 
@@ -366,7 +370,7 @@ def faceAnswers (u : SimpleUnit α) (st : LocalState α) (onFace : Option Nat) :
     Nat → List Nat → List (Option (List (Option α)))
   | _, [] => []
   | i, sid :: rest =>
-    let s := u.surfaces.getD sid default
+    let s := u.surf sid
     let on := onFace == some i
     (if numIntersections s == 1 && on then none else some (isectSlots s st.pos st.dir on))
       :: faceAnswers u st onFace (i + 1) rest
@@ -383,7 +387,7 @@ def bgEntered (g : Geo α) (u : SimpleUnit α) (st : LocalState α) (h : Hit α)
   let surface := h.face       -- "Inside the background volume, Face and Surface are the same"
   let pos := Vec3.axpy (dval h.dist + bumpDist g st.pos) st.dir st.pos
   let test (vid : Nat) : Option Bool :=
-    let vol := u.volumes.getD vid default
+    let vol := u.vol vid
     let (senses, _) := calcSenses u vol pos none
     if evalLogic vol.logic senses then
       some (!(senses.getD ((findFace vol (some surface)).getD 0) false))
@@ -399,7 +403,7 @@ def SimpleUnit.pickSimple (u : SimpleUnit α) (st : LocalState α) (vol : Volume
     let surface := vol.faces.getD h.face 0
     let cur :=
       if some surface == st.surface.id then st.surface.sense
-      else (u.surfaces.getD surface default).calcSense st.pos != SignedSense.inside
+      else (u.surf surface).calcSense st.pos != SignedSense.inside
     ⟨⟨some surface, cur⟩, h.dist⟩
 
 /-- `complex_intersect` on the sorted intersections -/
@@ -429,12 +433,12 @@ def SimpleUnit.pickHit (g : Geo α) (u : SimpleUnit α) (st : LocalState α) (vo
 /-- `intersect_impl(state, is_valid)` -/
 def SimpleUnit.intersectImpl (g : Geo α) (u : SimpleUnit α) (st : LocalState α) (v : Valid α) :
     Isect α :=
-  let vol := u.volumes.getD (st.volume.getD 0) default
+  let vol := u.vol (st.volume.getD 0)
   let onFace := findFace vol st.surface.id
   u.pickHit g st vol (gatherHits v (faceAnswers u st onFace 0 vol.faces))
 
 def SimpleUnit.normal (u : SimpleUnit α) (pos : Vec3 α) (surf : Nat) : Vec3 α :=
-  (u.surfaces.getD surf default).calcNormal pos
+  (u.surf surf).calcNormal pos
 
 /-! ### RectArrayTracker -/
 
@@ -487,23 +491,29 @@ def RectArray.crossBoundary (r : RectArray α) (st : LocalState α) : Option Nat
   let c' := if st.surface.sense then c + 1 else c - 1
   some (toIndex r.dims (coords.setIfInBounds ax c'))
 
-def RectArray.intersectAxis (r : RectArray α) (st : LocalState α) (v : Valid α)
-    (coords : Array Nat) (res : Isect α) (ax : Nat) : Isect α :=
+/-- the candidate crossing of one axis in `intersect_impl`: the grid plane ahead along that
+    axis, if the direction has a component along it and the distance is positive -/
+def RectArray.axisCand (r : RectArray α) (st : LocalState α) (coords : Array Nat) (ax : Nat) :
+    Option (Isect α) :=
   let dir := st.dir.get ax
-  if Num.eq dir (Num.ofNat 0) then res
+  if Num.eq dir (Num.ofNat 0) then none
   else
     let target := coords.getD ax 0 + (if Num.gt dir (Num.ofNat 0) then 1 else 0)
     let value := (r.grid.getD ax #[]).getD target (Num.ofNat 0)
     let dist := (value - st.pos.get ax) / dir
-    if Num.gt dist (Num.ofNat 0) && v.ok (some dist) && dlt (some dist) res.dist then
-      ⟨⟨some (r.offsets.getD ax 0 + target), !(Num.gt dir (Num.ofNat 0))⟩, some dist⟩
-    else res
+    if Num.gt dist (Num.ofNat 0) then
+      some ⟨⟨some (r.offsets.getD ax 0 + target), !(Num.gt dir (Num.ofNat 0))⟩, some dist⟩
+    else none
+
+/-- `if (dist > 0 && is_valid(dist) && dist < result.distance) result = candidate` -/
+def stepCand (v : Valid α) (res : Isect α) : Option (Isect α) → Isect α
+  | none => res
+  | some c => if v.ok c.dist && dlt c.dist res.dist then c else res
 
 def RectArray.intersectImpl (r : RectArray α) (st : LocalState α) (v : Valid α) : Isect α :=
   let coords := toCoords r.dims (st.volume.getD 0)
-  let res := r.intersectAxis st v coords Isect.none' 0
-  let res := r.intersectAxis st v coords res 1
-  r.intersectAxis st v coords res 2
+  stepCand v (stepCand v (stepCand v Isect.none' (r.axisCand st coords 0)) (r.axisCand st coords 1))
+    (r.axisCand st coords 2)
 
 def RectArray.normal (r : RectArray α) (surf : Nat) : Vec3 α :=
   (⟨Num.ofNat 0, Num.ofNat 0, Num.ofNat 0⟩ : Vec3 α).set (surfAxis r.offsets surf).1 (Num.ofNat 1)
@@ -543,7 +553,7 @@ def Geo.normal (g : Geo α) (uid : Nat) (pos : Vec3 α) (surf : Nat) : Vec3 α :
 
 def Geo.daughter (g : Geo α) (uid : Nat) (vol : Nat) : Option Nat :=
   match g.univ uid with
-  | .simple u => (u.volumes.getD vol default).daughter
+  | .simple u => (u.vol vol).daughter
   | .rect r => r.daughters.getD vol none
 
 def Geo.daughterInfo (g : Geo α) (d : Nat) : Nat × Transform α :=
@@ -595,7 +605,7 @@ def State.clearNext (s : State α) : State α :=
 def State.clearSurface (s : State α) : State α := { s with surfaceLevel := none }
 
 def State.localState (s : State α) (lev : Nat) : LocalState α :=
-  let l := s.levels.getD lev default
+  let l := s.lev lev
   { pos := l.pos, dir := l.dir, volume := some l.vol,
     surface := if s.surfaceLevel == some lev then ⟨s.surf, s.sense⟩ else ⟨none, false⟩ }
 
@@ -694,7 +704,7 @@ def dirDown (g : Geo α) : List Nat → Vec3 α → Array (LevelState α) → Ar
 
 /-- the transform leading from level `lev` to the one below (`get_transform(LevelId)`) -/
 def levelTransform (g : Geo α) (s : State α) (lev : Nat) : Transform α :=
-  let l := s.levels.getD lev default
+  let l := s.lev lev
   match g.daughter l.uid l.vol with
   | some d => (g.daughterInfo d).2
   | none => .none
@@ -706,7 +716,7 @@ def rotateUpFrom (g : Geo α) (s : State α) : Nat → Vec3 α → Vec3 α
 
 /-- the normal of the current surface in the frame of `surface_level` -/
 def localNormal (g : Geo α) (s : State α) (sl : Nat) : Vec3 α :=
-  let l := s.levels.getD sl default
+  let l := s.lev sl
   g.normal l.uid l.pos (s.surf.getD 0)
 
 /-- does `set_dir(newdir)` flip the boundary flag?  The normal is a vector of the
@@ -740,7 +750,7 @@ def crossBoundary (g : Geo α) (s : State α) : State α :=
   else
     let s := { s with sense := !s.sense, boundary := true }
     let level := s.surfaceLevel.getD 0
-    let l := s.levels.getD level default
+    let l := s.lev level
     let loc : LocalState α := { pos := l.pos, dir := l.dir, volume := some l.vol, surface := ⟨s.surf, s.sense⟩ }
     let (vol, failed) := match g.crossBoundary l.uid loc with
       | some v => (v, s.failed)
@@ -756,10 +766,10 @@ def crossBoundary (g : Geo α) (s : State α) : State α :=
 
 /-- `UniverseIndexer::global_volume` / `global_surface` -/
 def globalVolume (g : Geo α) (s : State α) : Nat :=
-  let l := s.levels.getD s.lvl default
+  let l := s.lev s.lvl
   g.volOff.getD l.uid 0 + l.vol
 def globalSurface (g : Geo α) (s : State α) : Option Nat :=
   s.surfaceLevel.map fun sl =>
-    g.surfOff.getD (s.levels.getD sl default).uid 0 + s.surf.getD 0
+    g.surfOff.getD (s.lev sl).uid 0 + s.surf.getD 0
 
 end CelerVerif.Nav
